@@ -695,6 +695,23 @@ def rule_inplace():
             failing.append(f"{rel(p)}:{n.lineno}: augmented item assignment")
         if isinstance(n, ast.Assign) and any(isinstance(t, ast.Subscript) and root_name(t) not in ("kwargs",) for t in n.targets):
             failing.append(f"{rel(p)}:{n.lineno}: item assignment {ast.unparse(n.targets[0])}")
+    # (6) nowhere in einx: array metadata writers (flags / shape / dtype / strides of an existing object) - the frame condition of C09 also covers
+    # the objects passed as sizes and options, which never reach the backend but pass through the cache-key and constraint code
+    META_WRITERS = {"setflags", "setfield", "resize", "itemset", "byteswap"}
+    n_meta = 0
+    for f in all_files():
+        r = rel(f)
+        t = ast.parse(open(f).read())
+        for n in ast.walk(t):
+            n_meta += 1
+            if isinstance(n, ast.Call) and isinstance(n.func, ast.Attribute) and n.func.attr in META_WRITERS:
+                failing.append(f"{r}:{n.lineno}: .{n.func.attr}() changes the metadata/contents of an existing array")
+            if isinstance(n, (ast.Assign, ast.AugAssign)):
+                for tg in (n.targets if isinstance(n, ast.Assign) else [n.target]):
+                    for q in ast.walk(tg):
+                        if isinstance(q, ast.Attribute) and isinstance(q.ctx, ast.Store) and (q.attr in ("writeable", "strides") or (q.attr in ("shape", "dtype") and not ast.unparse(q.value).startswith("self"))):
+                            failing.append(f"{r}:{n.lineno}: assignment to {ast.unparse(q)} changes an existing object")
+    sites.append(f"all einx sources: no array metadata writer ({n_meta} AST nodes scanned)")
     # (5) target position: update_at.inner applies the primitive to its first parameter; update_at_ravelled applies op to the reshaped first tensor
     fn = find_func(tree, "update_at")
     inner = [n for n in ast.walk(fn) if isinstance(n, ast.FunctionDef) and n.name == "inner"][0]
